@@ -18,4 +18,4 @@ for d in seeded/*/; do
   esac
   git -C /repo worktree remove --force "$W"
 done
-sed "s|@REPO@|/repo|" harness/go.mod.tmpl > harness/go.mod
+flock /verif/.build.lock sh -c 'sed "s|@REPO@|/repo|" harness/go.mod.tmpl > harness/go.mod'
